@@ -113,6 +113,9 @@ def run(repo, rep, tier):
 
     close_always_releases(repo, rep)
     state_is_per_instance(repo, rep)
+    from .c13 import adapter_keys_agree
+    adapter_keys_agree(repo, rep, 'C14.R14', lambda op: op.startswith(
+        ('Open', 'Pull', 'Close')), 40)
     from ..argorder import argument_order_rule
     argument_order_rule(repo, rep, 'C14.R13',
                         ('pywbem_mock/_mainprovider.py',
